@@ -223,6 +223,37 @@ pub fn gen(stream: &str, seed: u64, n: usize, out: &mut Out) {
             out.stat("kind_u8_full");
             continue;
         }
+        if stable && id % 30 == 11 {
+            // more slots than the index type admits although the present nodes fit: 250 nodes + 5..10 holes into a u8 graph
+            let holes_n = 5 + r.below(6);
+            let total = 250 + holes_n;
+            let mut holes: Vec<i64> = Vec::new();
+            while holes.len() < holes_n { let h = r.below(total) as i64; if !holes.contains(&h) { holes.push(h); } }
+            holes.sort();
+            let mut w = vec![250i64]; w.extend((0..250).map(|i| (i % 50) as i64));
+            w.push(holes_n as i64); w.extend(holes.iter());
+            w.push(directed as i64); w.push(0);
+            ops.push(("deser".into(), w));
+            ops.push(("add_node".into(), vec![1]));
+            run_case(stream, id, &[directed as i64, 0, 255, 1, 0], &ops, out);
+            out.stat("kind_u8_slots_over_limit");
+            continue;
+        }
+        if stable && id % 30 == 17 {
+            // several node vacancies, round trip, then re-occupy a vacancy that is not the head of the free list
+            for i in 0..6 { ops.push(("add_node".into(), vec![10 + i])); }
+            ops.push(("add_edge".into(), vec![0, 3, 1])); ops.push(("add_edge".into(), vec![3, 5, 2])); ops.push(("add_edge".into(), vec![1, 2, 3]));
+            let mut dead = vec![1i64, 2, 4];
+            for i in (1..dead.len()).rev() { let j = r.below(i + 1); dead.swap(i, j); }
+            for d in &dead { ops.push(("remove_node".into(), vec![*d])); }
+            ops.push(("roundtrip".into(), vec![]));
+            ops.push(("extend_with_edges".into(), vec![0, dead[r.below(3)], 7]));
+            for i in 0..3 { ops.push(("add_node".into(), vec![20 + i])); }
+            ops.push(("add_edge".into(), vec![0, 5, 9]));
+            run_case(stream, id, &[directed as i64, 0, cap, capcheck, ixc], &ops, out);
+            out.stat("kind_vacancies_reoccupied_after_load");
+            continue;
+        }
         let len = 6 + r.below(25);
         let mut nb = 0usize; let mut eb = 0usize;
         for _ in 0..len {
